@@ -1040,3 +1040,740 @@ Proof.
   psimpl_in An. cbv zeta in H.
   match type of H with (match ?c with _ => _ end) = _ => destruct c as [x|] end; inv_pair H; psimpl; congruence.
 Qed.
+
+(* ---------- the idle loop: invariants and fuel ------------------------------------------------------------------------- *)
+
+Definition b2nat (b : bool) : nat := if b then 1%nat else 0%nat.
+Definition has {A} (o : option A) : bool := match o with Some _ => true | None => false end.
+
+(* what can make run_idle_state go round again *)
+Definition potential (s : ostate) : nat :=
+  (b2nat (has (s_pending s)) + b2nat (s_notify s) + 2 * b2nat (has (s_deferred s)))%nat.
+
+Definition need (st : stage) (s : ostate) : nat :=
+  match st with
+  | St1 => 4 * (potential s - b2nat (has (s_pending s))) + 4
+  | St2 => 4 * potential s + 3
+  | St3 ns => 4 * (potential s + b2nat ns) + 2
+  | St4 ns => 4 * (potential s + b2nat ns) + 1
+  end%nat.
+
+Lemma need_le_32 st s : (need st s <= 22)%nat.
+Proof.
+  unfold need, potential. destruct st as [| |ns|ns]; try destruct ns;
+    destruct (has (s_pending s)), (s_notify s), (has (s_deferred s)); cbn [b2nat]; lia.
+Qed.
+
+(* what holds of a deferred READ when the loop is at a given stage *)
+Definition stage_ok (st : stage) (s : ostate) : Prop :=
+  match st with
+  | St3 _ => s_pending s <> None -> s_deferred s = None
+  | _ => s_deferred s = None
+  end.
+
+(* where the session blocks: no fragment is held back, a deferred READ exists only in the
+   unsolicited confirm wait *)
+Definition rest_ok (s : ostate) : Prop :=
+  s_pending s = None /\
+  (s_deferred s <> None -> exists resp n rt dl, s_control s = CUnsolWait resp n rt dl).
+
+Definition inv1 (cfg : ocfg) (h : list oobs) (s : ostate) : Prop :=
+  sol_coh cfg h s /\ unsol_coh cfg h s /\ wait_coh s /\ def_ok cfg s.
+
+Definition inv (cfg : ocfg) (h : list oobs) (s : ostate) : Prop := inv1 cfg h s /\ rest_ok s.
+
+Lemma def_ok_same cfg s s1 : s_deferred s1 = s_deferred s -> def_ok cfg s -> def_ok cfg s1.
+Proof. intros E H d Hd. rewrite E in Hd. auto. Qed.
+
+Lemma def_ok_none cfg s : s_deferred s = None -> def_ok cfg s.
+Proof. intros E d Hd. congruence. Qed.
+
+Lemma sol_coh_same cfg h s s1 :
+  s_last s1 = s_last s -> s_sol_buf s1 = s_sol_buf s -> sol_coh cfg h s -> sol_coh cfg h s1.
+Proof. intros E1 E2 H l r Hl Hr. rewrite E2. rewrite E1 in Hl. eauto. Qed.
+
+Lemma idle_run_pres cfg : forall f st s h s' o,
+  idle_run f cfg st s = (s', o) -> (need st s <= f)%nat ->
+  s_control s = CIdle -> stage_ok st s -> def_ok cfg s -> sol_coh cfg h s ->
+  inv cfg (h ++ o) s' /\ forallb no_oof o = true.
+Proof.
+  induction f as [|f IH]; intros st s h s' o H Hf Hc Hst Hdef Hcoh.
+  { exfalso. destruct st; cbn [need] in Hf; lia. }
+  cbn [idle_run] in H. destruct st as [| |ns|ns]; cbn [stage_ok] in Hst.
+  - (* St1 *)
+    destruct (s_pending s) as [[[[[from bc] bytes] d] fid]|] eqn:Ep.
+    + destruct (handle_from_idle cfg (upd_pending s None) from bc bytes d fid) as [s1 o1] eqn:Eh.
+      apply handle_from_idle_pres with (h := h) in Eh as [A [B [[Cd [Cp [Cn [Cu Cc]]]] D]]];
+        [| psimpl; auto | apply sol_coh_same with (s := s); auto].
+      psimpl_in Cd. psimpl_in Cp. psimpl_in Cn. psimpl_in Cu. psimpl_in Cc.
+      destruct (s_control s1) as [|se dl rs|resp n rt dl] eqn:Ec1.
+      * destruct (idle_run f cfg St2 s1) as [s2 o2] eqn:E2. inv_pair H.
+        apply IH with (h := h ++ o1) in E2; auto.
+        -- rewrite <- app_assoc in E2. destruct E2 as [E2 E3]. split; [exact E2|].
+           rewrite forallb_app, (forallb_imp _ _ _ req_no_oof D), E3. reflexivity.
+        -- unfold need, potential in *. rewrite Cp, Cn, Cd. rewrite Ep in Hf. cbn [has b2nat] in *. lia.
+        -- cbn [stage_ok]. congruence.
+        -- eapply def_ok_same; eauto.
+      * inv_pair H. split; [|apply (forallb_imp _ _ _ req_no_oof D)].
+        split; [split; [exact A | split; [|split; [exact B|]]]|].
+        -- apply unsol_coh_vacuous. intros. rewrite Ec1. discriminate.
+        -- eapply def_ok_same; eauto.
+        -- split; [exact Cp|]. intros X. rewrite Cd, Hst in X. congruence.
+      * exfalso. rewrite Hc in Cc. destruct Cc as [X|[se [dl' X]]]; discriminate.
+    + rewrite Hc in H. destruct (idle_run f cfg St2 s) as [s2 o2] eqn:E2. inv_pair H.
+      apply IH with (h := h) in E2; auto.
+      unfold need, potential in *. rewrite Ep in *. cbn [has b2nat] in *. lia.
+  - (* St2 *)
+    destruct (check_unsolicited cfg s) as [[s2 ns2] o2] eqn:Eu.
+    apply check_unsolicited_spec with (h := h) in Eu as [Ul [Ub [Ud [Up [Un [Us [Uc Uk]]]]]]]; auto.
+    assert (Hcoh2 : sol_coh cfg (h ++ o2) s2) by (apply sol_coh_frame with (s := s); auto).
+    destruct (s_control s2) as [|se dl rs|resp n rt dl] eqn:Ec2.
+    + destruct (idle_run f cfg (St3 false) s2) as [s3 o3] eqn:E3. inv_pair H.
+      apply IH with (h := h ++ o2) in E3; auto.
+      * rewrite <- app_assoc in E3. destruct E3 as [E3 E4]. split; [exact E3|].
+        rewrite forallb_app, (forallb_imp _ _ _ ustart_no_oof Us), E4. reflexivity.
+      * unfold need, potential in *. rewrite Up, Un, Ud. cbn [b2nat]. lia.
+      * cbn [stage_ok]. intros _. congruence.
+      * eapply def_ok_same; eauto.
+    + exfalso. destruct Uk as [X|[r1 [n [rt [dl' X]]]]]; discriminate.
+    + destruct (s_pending s2) as [[[[[from bc] bytes] d] fid]|] eqn:Ep2.
+      * destruct (unsol_wait_fragment cfg (upd_pending s2 None) resp from bc bytes d fid) as [[s3 res] o3] eqn:Ew.
+        pose proof (unsol_wait_fragment_def_ok _ _ _ _ _ _ _ _ _ _ _ Ew) as Hdef3.
+        apply unsol_wait_fragment_pres with (h := h ++ o2) in Ew as [A [[Wc [Wp [Wn Wu]]] [D Wd]]];
+          [| apply sol_coh_same with (s := s2); auto].
+        psimpl_in Wc. psimpl_in Wp. psimpl_in Wn. psimpl_in Wu. psimpl_in Wd.
+        assert (Hd3 : def_ok cfg s3).
+        { apply Hdef3. apply def_ok_same with (s := s); auto. }
+        destruct res as [r|].
+        -- destruct (end_unsol cfg s3 n r) as [[s4 ns4] o4] eqn:Ee.
+           apply end_unsol_spec in Ee as [[[Ec [El [Ed [Ep4 [En Eu']]]]] Eb] Se].
+           psimpl_in Ec. psimpl_in El. psimpl_in Ed. psimpl_in Ep4. psimpl_in En. psimpl_in Eu'. psimpl_in Eb.
+           destruct (idle_run f cfg (St3 ns4) s4) as [s5 o5] eqn:E5. inv_pair H.
+           apply IH with (h := (h ++ o2 ++ o3) ++ o4) in E5; auto.
+           ++ rewrite <- !app_assoc in E5. destruct E5 as [E5 E6]. split; [exact E5|].
+              rewrite !forallb_app, (forallb_imp _ _ _ ustart_no_oof Us), (forallb_imp _ _ _ req_no_oof D),
+                (forallb_imp _ _ _ dbq_no_oof Se), E6. reflexivity.
+           ++ assert (Hd0 : s_deferred s4 = None).
+              { rewrite Ed. destruct Wd as [X|X]; [discriminate| |exact X]. rewrite X, Ud. exact Hst. }
+              unfold need, potential in *. rewrite Ep4, Wp, En, Wn, Un, Hd0. rewrite <- Up in Hf.
+              cbn [has b2nat] in *. destruct ns4; cbn [b2nat]; lia.
+           ++ cbn [stage_ok]. intros X. rewrite Ep4, Wp in X. congruence.
+           ++ eapply def_ok_same; eauto.
+           ++ apply sol_coh_frame with (s := s3); auto. rewrite app_assoc. exact A.
+        -- inv_pair H. split.
+           ++ split; [split; [rewrite app_assoc; exact A | split; [|split]]|].
+              ** rewrite app_assoc. apply unsol_coh_frame with (s := s2); auto.
+                 apply (forallb_imp _ _ _ req_neu D).
+              ** apply wait_coh_not_wait. intros. rewrite Wc, Ec2. discriminate.
+              ** exact Hd3.
+              ** split; [exact Wp|]. intros _. rewrite Wc, Ec2. eauto.
+           ++ rewrite forallb_app, (forallb_imp _ _ _ ustart_no_oof Us), (forallb_imp _ _ _ req_no_oof D). reflexivity.
+      * inv_pair H. split; [|apply (forallb_imp _ _ _ ustart_no_oof Us)].
+        split; [split; [exact Hcoh2 | split; [exact Uc | split]]|].
+        -- apply wait_coh_not_wait. intros. rewrite Ec2. discriminate.
+        -- eapply def_ok_same; eauto.
+        -- split; [exact Ep2|]. intros _. rewrite Ec2. eauto.
+  - (* St3 *)
+    destruct (handle_deferred cfg s ns) as [s3 o3] eqn:Ed.
+    pose proof (handle_deferred_notify _ _ _ _ _ Ed) as Hn.
+    pose proof Ed as Ed'.
+    apply handle_deferred_pres with (h := h) in Ed as [A [B [Dd [Dp [Du [Dc D]]]]]]; auto.
+    destruct (s_control s3) as [|se dl rs|resp n rt dl] eqn:Ec3.
+    + destruct (idle_run f cfg (St4 ns) s3) as [s4 o4] eqn:E4. inv_pair H.
+      apply IH with (h := h ++ o3) in E4; auto.
+      * rewrite <- app_assoc in E4. destruct E4 as [E4 E5]. split; [exact E4|].
+        rewrite forallb_app, (forallb_imp _ _ _ rd_no_oof D), E5. reflexivity.
+      * unfold need, potential in *. rewrite Dp, Dd.
+        destruct (s_deferred s); rewrite Hn; cbn [has b2nat] in *; destruct (s_notify s); cbn [b2nat] in *; lia.
+      * apply def_ok_none; exact Dd.
+    + inv_pair H. split; [|apply (forallb_imp _ _ _ rd_no_oof D)].
+      split; [split; [exact A | split; [|split; [exact B|]]]|].
+      * apply unsol_coh_vacuous. intros. rewrite Ec3. discriminate.
+      * apply def_ok_none; exact Dd.
+      * split; [|intros X; congruence]. rewrite Dp.
+        destruct (s_pending s) eqn:Ep; [|reflexivity]. exfalso.
+        rewrite handle_deferred_none in Ed' by (apply Hst; discriminate). inv_pair Ed'. congruence.
+    + exfalso. destruct Dc as [X|[se [dl' X]]]; discriminate.
+  - (* St4 *)
+    destruct (s_pending s) as [p|] eqn:Ep.
+    + apply IH with (h := h) in H; auto.
+      unfold need, potential in *. rewrite Ep in *. cbn [has b2nat] in *. lia.
+    + destruct ns.
+      * apply IH with (h := h) in H; auto.
+        unfold need, potential in *. rewrite Ep in *. cbn [has b2nat] in *. lia.
+      * destruct (s_notify s) eqn:En.
+        -- apply IH with (h := h) in H; auto.
+           unfold need, potential in *. psimpl. rewrite Ep in *. rewrite En in Hf. cbn [has b2nat] in *. lia.
+        -- inv_pair H. split; [|reflexivity]. rewrite app_nil_r.
+           split; [split; [exact Hcoh | split; [|split; [|exact Hdef]]]|].
+           ++ apply unsol_coh_vacuous. intros. rewrite Hc. discriminate.
+           ++ apply wait_coh_not_wait. intros. rewrite Hc. discriminate.
+           ++ split; [exact Ep|]. intros X. congruence.
+Qed.
+
+(* ---------- the idle loop with nothing in the reader: nothing is executed -------------------------------------------- *)
+
+Lemma check_unsolicited_pending cfg s s1 ns o :
+  check_unsolicited cfg s = (s1, ns, o) -> s_pending s1 = s_pending s /\ forallb ustart o = true.
+Proof.
+  unfold check_unsolicited. intros H.
+  assert (Hstart : forall s0 r is_null s1' o', start_unsol cfg s0 r is_null = (s1', o') ->
+            s_pending s1' = s_pending s0 /\ forallb ustart o' = true).
+  { intros s0 r is_null s1' o' Hs. apply start_unsol_spec with (h := []) in Hs as [[[_ [_ [_ [Gp _]]]] _] [S _]].
+    psimpl_in Gp. auto. }
+  destruct (negb (o_unsol cfg)); [inv_pair H; auto|].
+  destruct (s_unsol s) as [|deadline].
+  - match type of H with context [start_unsol cfg ?a ?b ?c] => destruct (start_unsol cfg a b c) as [s3 o3] eqn:Es end.
+    inv_pair H. apply Hstart in Es as [A B]. psimpl_in A. auto.
+  - destruct (negb match deadline with Some t => (t <=? s_now s)%Z | None => true end); [inv_pair H; auto|].
+    destruct (negb (any_enabled s)); [inv_pair H; auto|].
+    destruct (ask_unsol s) as [s0 [count body]] eqn:Ea. apply ask_unsol_spec in Ea as [[_ [_ [_ [Fp _]]]] _].
+    destruct (s_enabled s) as [[c1 c2] c3].
+    destruct (count =? 0); [inv_pair H; auto|].
+    match type of H with context [start_unsol cfg ?a ?b ?c] => destruct (start_unsol cfg a b c) as [s3 o3] eqn:Es end.
+    inv_pair H. apply Hstart in Es as [A B]. psimpl_in A. split; [congruence|]. cbn [forallb ustart]. exact B.
+Qed.
+
+Lemma handle_deferred_shape cfg s ns s1 o :
+  handle_deferred cfg s ns = (s1, o) -> s_pending s1 = s_pending s /\ forallb rd_obs o = true.
+Proof.
+  unfold handle_deferred. intros H.
+  destruct (s_deferred s) as [d|] eqn:Ed; [|inv_pair H; auto].
+  destruct (ask_iin2 (upd_notify (upd_deferred s None) true) DbDeferredSelect) as [[s2 iin2] o1] eqn:E1.
+  destruct (format_read_response s2 true (df_seq d) (N.lor (df_iin2 d) iin2)) as [[[s3 r] se] o2] eqn:E2.
+  destruct (write_solicited s3 (df_from d) r) as [[s4 r'] o3] eqn:E3.
+  apply ask_iin2_spec in E1 as [[[Ac [Al [Ad [Ap [An Au]]]]] Ab] S1].
+  apply format_read_response_spec in E2 as [[Bc [Bl [Bd [Bp [Bn Bu]]]]] [S2 _]].
+  apply write_solicited_spec in E3 as [[[Cc [Cl [Cd [Cp [Cn Cu]]]]] Cb] [_ [_ [_ [o' [-> S3]]]]]].
+  psimpl_in Ap. cbv zeta in H.
+  assert (Sbg : forallb rd_obs (o1 ++ o2 ++ o' ++ [OTx (df_from d) (response_bytes r' (s_sol_buf s4))]) = true).
+  { rewrite !forallb_app, (forallb_imp _ _ _ dbq_rd S1), (forallb_imp _ _ _ dbq_rd S2), (forallb_imp _ _ _ dbq_rd S3). reflexivity. }
+  match type of H with (match ?c with _ => _ end) = _ => destruct c as [x|] end; inv_pair H; psimpl.
+  - split; [congruence|]. rewrite !app_assoc, forallb_app. rewrite <- !app_assoc, Sbg. reflexivity.
+  - split; [congruence|]. exact Sbg.
+Qed.
+
+Lemma idle_run_bg cfg : forall f st s s' o,
+  idle_run f cfg st s = (s', o) -> s_pending s = None ->
+  s_pending s' = None /\ forallb bg o = true.
+Proof.
+  induction f as [|f IH]; intros st s s' o H Hp.
+  { cbn [idle_run] in H. inv_pair H. auto. }
+  cbn [idle_run] in H. destruct st as [| |ns|ns].
+  - rewrite Hp in H. destruct (s_control s); [|inv_pair H; auto..].
+    destruct (idle_run f cfg St2 s) as [s2 o2] eqn:E2. inv_pair H. eapply IH; eauto.
+  - destruct (check_unsolicited cfg s) as [[s2 ns2] o2] eqn:Eu.
+    apply check_unsolicited_pending in Eu as [Up Us]. rewrite Hp in Up.
+    apply (forallb_imp _ _ _ ustart_bg) in Us.
+    destruct (s_control s2).
+    + destruct (idle_run f cfg (St3 false) s2) as [s3 o3] eqn:E3. inv_pair H.
+      apply IH in E3 as [A B]; auto. split; [exact A|]. fb.
+    + inv_pair H. auto.
+    + rewrite Up in H. inv_pair H. auto.
+  - destruct (handle_deferred cfg s ns) as [s3 o3] eqn:Ed.
+    apply handle_deferred_shape in Ed as [Dp D]. rewrite Hp in Dp.
+    apply (forallb_imp _ _ _ rd_bg) in D.
+    destruct (s_control s3); [|inv_pair H; auto..].
+    destruct (idle_run f cfg (St4 ns) s3) as [s4 o4] eqn:E4. inv_pair H.
+    apply IH in E4 as [A B]; auto. split; [exact A|]. fb.
+  - rewrite Hp in H. destruct ns; [eapply IH; eauto|].
+    destruct (s_notify s); [eapply IH; eauto|]. inv_pair H. auto.
+Qed.
+
+(* ---------- deadlines ---------------------------------------------------------------------------------------------------- *)
+
+Lemma end_unsol_bg cfg s is_null res s1 ns o :
+  end_unsol cfg s is_null res = (s1, ns, o) -> s_pending s1 = s_pending s /\ forallb bg o = true.
+Proof.
+  intros H. apply end_unsol_spec in H as [[[_ [_ [_ [Fp _]]]] _] S]. psimpl_in Fp.
+  split; [exact Fp | apply (forallb_imp _ _ _ dbq_bg S)].
+Qed.
+
+Lemma fire_deadline_bg cfg s s' o :
+  fire_deadline cfg s = (s', o) -> s_pending s = None -> s_pending s' = None /\ forallb bg o = true.
+Proof.
+  unfold fire_deadline, resume_at. intros H Hp.
+  destruct (s_control s) as [|se dl r|resp is_null retries dl].
+  - eapply idle_run_bg; eauto.
+  - destruct (idle_run 32 cfg (stage_of r) (upd_control s CIdle)) as [s1 o1] eqn:E. inv_pair H.
+    apply idle_run_bg in E as [A B]; auto.
+  - match type of H with (if ?c then _ else _) = _ => destruct c end.
+    + inv_pair H. split; [exact Hp | reflexivity].
+    + destruct (end_unsol cfg s is_null UrTimeout) as [[s1 ns] o1] eqn:Ee.
+      apply end_unsol_bg in Ee as [Ep Se]. rewrite Hp in Ep.
+      destruct (idle_run 32 cfg (St3 ns) s1) as [s2 o2] eqn:E. inv_pair H.
+      apply idle_run_bg in E as [A B]; auto. split; [exact A|]. cbn [app forallb bg]. fb.
+Qed.
+
+Lemma advance_bg cfg : forall f s target s' o,
+  advance f cfg s target = (s', o) -> s_pending s = None -> s_pending s' = None /\ forallb bg o = true.
+Proof.
+  induction f as [|f IH]; intros s target s' o H Hp; cbn [advance] in H.
+  { inv_pair H. auto. }
+  destruct (next_deadline cfg s) as [d|]; [|inv_pair H; auto].
+  destruct (d <=? target)%Z; [|inv_pair H; auto].
+  destruct (fire_deadline cfg (upd_now s (Z.max d (s_now s)))) as [s1 o1] eqn:Ef.
+  destruct (advance f cfg s1 target) as [s2 o2] eqn:Ea. inv_pair H.
+  apply fire_deadline_bg in Ef as [A B]; auto. apply IH in Ea as [C D]; auto.
+  split; [exact C|]. cbn [forallb bg]. fb.
+Qed.
+
+(* ---------- the invariant through deadlines ---------------------------------------------------------------------------- *)
+
+Lemma inv_same' cfg h s s1 :
+  s_control s1 = s_control s -> s_last s1 = s_last s -> s_deferred s1 = s_deferred s ->
+  s_pending s1 = s_pending s -> s_unsol_buf s1 = s_unsol_buf s -> s_sol_buf s1 = s_sol_buf s ->
+  inv cfg h s -> inv cfg h s1.
+Proof.
+  intros Fc Fl Fd Fp Fu Fb [[A [B [C D]]] [E1 E2]].
+  split; [split; [|split; [|split]]|split].
+  - apply sol_coh_same with (s := s); auto.
+  - intros resp n rt dl Hc. rewrite Fc in Hc. rewrite Fu. eauto.
+  - apply wait_coh_frame with (s := s); auto.
+  - apply def_ok_same with (s := s); auto.
+  - congruence.
+  - rewrite Fd, Fc. exact E2.
+Qed.
+
+Lemma inv_same cfg h s s1 : frame s s1 -> inv cfg h s -> inv cfg h s1.
+Proof. intros [[Fc [Fl [Fd [Fp [Fn Fu]]]]] Fb]. apply inv_same'; assumption. Qed.
+
+Lemma idle_loop_8_eq cfg s : idle_loop 8 cfg s = resume_at cfg St1 s.
+Proof.
+  unfold idle_loop, resume_at. assert (E : (4 * 8 = 32)%nat) by reflexivity. rewrite E. reflexivity.
+Qed.
+
+Lemma resume_pres cfg h st s s' o pre :
+  resume_at cfg st s = (s', o) ->
+  s_control s = CIdle -> stage_ok st s -> def_ok cfg s -> sol_coh cfg (h ++ pre) s ->
+  inv cfg (h ++ pre ++ o) s'.
+Proof.
+  unfold resume_at. intros H Hc Hst Hd Hcoh.
+  apply idle_run_pres with (h := h ++ pre) in H as [A _]; auto.
+  - rewrite <- app_assoc in A. exact A.
+  - pose proof (need_le_32 st s). lia.
+Qed.
+
+Lemma rest_ok_deferred_none s :
+  rest_ok s -> (forall resp n rt dl, s_control s <> CUnsolWait resp n rt dl) -> s_deferred s = None.
+Proof.
+  intros [_ H] Hc. destruct (s_deferred s) eqn:E; [|reflexivity].
+  destruct H as [resp [n [rt [dl X]]]]; [discriminate|]. destruct (Hc _ _ _ _ X).
+Qed.
+
+Lemma stage_ok_of_none st s : s_deferred s = None -> stage_ok st s.
+Proof. destruct st; cbn [stage_ok]; auto. Qed.
+
+Lemma fire_deadline_pres cfg h s s' o :
+  fire_deadline cfg s = (s', o) -> inv cfg h s -> inv cfg (h ++ o) s'.
+Proof.
+  unfold fire_deadline. intros H Hinv.
+  destruct (s_control s) as [|se dl r|resp is_null retries dl] eqn:Ec;
+    pose proof Hinv as [[A [B [C D]]] [E1 E2]].
+  - apply resume_pres with (h := h) (pre := []) in H; auto.
+    + apply stage_ok_of_none. apply rest_ok_deferred_none; [split; auto|]. intros. rewrite Ec. discriminate.
+    + rewrite app_nil_r. exact A.
+  - destruct (resume_at cfg (stage_of r) (upd_control s CIdle)) as [s1 o1] eqn:E. inv_pair H.
+    apply resume_pres with (h := h) (pre := [OInfo (ISolTimeout (se_ecsn se)); ODb DbReset]) in E; auto.
+    + apply stage_ok_of_none. psimpl. apply rest_ok_deferred_none; [split; auto|]. intros. rewrite Ec. discriminate.
+    + apply sol_coh_frame with (s := s); auto.
+  - match type of H with (if ?c then _ else _) = _ => destruct c end.
+    + inv_pair H. unfold repeat_unsolicited. split; [split; [|split; [|split]]|split].
+      * apply sol_coh_frame with (s := s); auto.
+      * intros resp' n rt' dl' Hc. psimpl_in Hc. inversion Hc; subst. psimpl.
+        destruct (B _ _ _ _ Ec) as [B1 B2]. split; [|exact B2]. apply opened_by_app; [reflexivity | exact B1].
+      * apply wait_coh_not_wait. intros. psimpl. discriminate.
+      * exact D.
+      * exact E1.
+      * intros _. psimpl. eauto.
+    + destruct (end_unsol cfg s is_null UrTimeout) as [[s1 ns] o1] eqn:Ee.
+      apply end_unsol_spec in Ee as [[[Fc [Fl [Fd [Fp [Fn Fu]]]]] Fb] Se].
+      psimpl_in Fc. psimpl_in Fl. psimpl_in Fd. psimpl_in Fp. psimpl_in Fn. psimpl_in Fb.
+      destruct (resume_at cfg (St3 ns) s1) as [s2 o2] eqn:E. inv_pair H.
+      apply resume_pres with (h := h) (pre := [OInfo (IUnsolTimeout (ctl_seq (r_ctl resp)) false)] ++ o1) in E; auto.
+      * cbn [stage_ok]. intros X. congruence.
+      * apply def_ok_same with (s := s); auto.
+      * apply sol_coh_frame with (s := s); auto.
+Qed.
+
+Lemma inv_upd_now cfg h s t : inv cfg h s -> inv cfg h (upd_now s t).
+Proof. apply inv_same. frame_tac. Qed.
+
+Lemma advance_pres cfg : forall f s target h s' o,
+  advance f cfg s target = (s', o) -> inv cfg h s -> inv cfg (h ++ o) s'.
+Proof.
+  induction f as [|f IH]; intros s target h s' o H Hinv; cbn [advance] in H.
+  { inv_pair H. apply inv_upd_now. destruct Hinv as [[A [B [C D]]] E]. split; [split; [|split; [|split]]|]; auto.
+    - apply sol_coh_frame with (s := s); auto.
+    - apply unsol_coh_frame with (s := s); auto. }
+  assert (Hstay : inv cfg (h ++ []) (upd_now s target)) by (rewrite app_nil_r; apply inv_upd_now; exact Hinv).
+  destruct (next_deadline cfg s) as [d|]; [|inv_pair H; exact Hstay].
+  destruct (d <=? target)%Z; [|inv_pair H; exact Hstay].
+  destruct (fire_deadline cfg (upd_now s (Z.max d (s_now s)))) as [s1 o1] eqn:Ef.
+  destruct (advance f cfg s1 target) as [s2 o2] eqn:Ea. inv_pair H.
+  apply fire_deadline_pres with (h := h ++ [OAt (Z.max d (s_now s))]) in Ef.
+  - apply IH with (h := (h ++ [OAt (Z.max d (s_now s))]) ++ o1) in Ea; auto.
+    rewrite <- !app_assoc in Ea. exact Ea.
+  - apply inv_upd_now. destruct Hinv as [[A [B [C D]]] E]. split; [split; [|split; [|split]]|]; auto.
+    + apply sol_coh_frame with (s := s); auto.
+    + apply unsol_coh_frame with (s := s); auto.
+Qed.
+
+(* ---------- a received fragment ------------------------------------------------------------------------------------------- *)
+
+Lemma sol_wait_fragment_spec cfg s se dl from bc bytes d out o :
+  sol_wait_fragment cfg s se dl from bc bytes d = (out, o) ->
+  forallb bg o = true /\ forallb not_enter_unsol o = true /\
+  (forall rt, out = SoConfirmed rt -> rt = from /\ (o_any_master cfg = false -> from = o_master cfg)).
+Proof.
+  unfold sol_wait_fragment. intros H.
+  destruct (to_treq cfg from d) as [|q|ctl fn obj] eqn:Et.
+  - inv_pair H. splits; auto. discriminate.
+  - inv_pair H. splits; auto. discriminate.
+  - pose proof (to_treq_from _ _ _ _ _ _ Et) as Hfrom.
+    destruct (classify s bc bytes ctl fn obj) as [iin2|hdrs rh|resp hdrs rh|hdrs|resp|m|q|q];
+      try (inv_pair H; splits; auto; discriminate).
+    + inv_pair H. unfold repeat_solicited. destruct resp; splits; auto; discriminate.
+    + destruct (q =? se_ecsn se); inv_pair H; splits; auto; try discriminate.
+      intros rt X. inversion X; subst. auto.
+Qed.
+
+Lemma inv_sol_coh_app cfg h s o : sol_coh cfg h s -> sol_coh cfg (h ++ o) s.
+Proof. apply sol_coh_frame; reflexivity. Qed.
+
+Lemma on_rx_pres cfg h s from bc bytes d s' o :
+  on_rx cfg s from bc bytes d = (s', o) -> inv cfg h s -> inv cfg (h ++ o) s'.
+Proof.
+  unfold on_rx. cbv zeta. intros H Hinv.
+  set (fid := (s_frame_id s + 1) mod 4294967296) in *.
+  set (s0 := upd_frame_id s fid) in *.
+  assert (Hinv0 : inv cfg h s0) by (apply inv_same with (s := s); [subst s0; frame_tac | exact Hinv]).
+  clearbody s0. clear Hinv.
+  destruct (s_control s0) as [|se dl r|resp is_null retries dl] eqn:Ec;
+    pose proof Hinv0 as [[A [B [C D]]] [E1 E2]].
+  - (* idle *)
+    rewrite idle_loop_8_eq in H.
+    apply resume_pres with (h := h) (pre := []) in H; auto.
+    + apply stage_ok_of_none. psimpl. apply rest_ok_deferred_none; [split; auto|]. intros ? ? ? ? X. rewrite Ec in X. discriminate.
+    + rewrite app_nil_r. apply sol_coh_same with (s := s0); auto.
+  - (* solicited confirm wait *)
+    assert (Hdn : s_deferred s0 = None).
+    { apply rest_ok_deferred_none; [split; auto|]. intros ? ? ? ? X. rewrite Ec in X. discriminate. }
+    destruct (sol_wait_fragment cfg s0 se dl from bc bytes d) as [out o1] eqn:Ew.
+    apply sol_wait_fragment_spec in Ew as [S1 [S2 Hrt]].
+    destruct out as [dl'|rt|].
+    + inv_pair H. split; [split; [|split; [|split]]|split]; psimpl; auto.
+      * apply sol_coh_frame with (s := s0); auto.
+      * apply unsol_coh_vacuous. intros. psimpl. discriminate.
+      * intros se0 dl0 rs0 X. psimpl_in X. inversion X; subst. psimpl. eapply C; eauto.
+      * intros X. congruence.
+    + destruct (Hrt _ eq_refl) as [-> Hfrom].
+      destruct (se_fin se).
+      * destruct (resume_at cfg (stage_of r) (upd_control (upd_last_bcast s0 None) CIdle)) as [s2 o2] eqn:E.
+        inv_pair H.
+        apply resume_pres with (h := h) (pre := o1 ++ [ODb DbClearWritten]) in E; auto.
+        -- rewrite <- !app_assoc in E. exact E.
+        -- apply stage_ok_of_none. psimpl. exact Hdn.
+        -- apply sol_coh_frame with (s := s0); auto.
+      * destruct (format_read_response (upd_last_bcast s0 None) false (seq16_next (se_ecsn se)) 0)
+          as [[[s2 rsp] next] o2] eqn:Ef.
+        destruct (write_solicited s2 from rsp) as [[s3 rsp'] o3] eqn:Es.
+        apply format_read_response_spec in Ef as [[Fc [Fl [Fd [Fp [Fn Fu]]]]] [Sf [Q1 Q2]]].
+        apply write_solicited_spec in Es as [[[Gc [Gl [Gd [Gp [Gn Gu]]]]] Gb] [_ [_ [Hq [o' [-> Ss]]]]]].
+        psimpl_in Fc. psimpl_in Fl. psimpl_in Fd. psimpl_in Fp. psimpl_in Fn. psimpl_in Fu.
+        destruct (C _ _ _ Ec) as [l0 [r0 [Hl0 [Hr0 _]]]].
+        assert (Hl3 : s_last s3 = Some l0) by congruence. rewrite Hl3 in H.
+        set (s4 := upd_last s3 (Some {| lr_seq := lr_seq l0; lr_bytes := lr_bytes l0;
+                                        lr_response := Some rsp'; lr_series := lr_series l0 |})) in *.
+        assert (Hcoh4 : forall o4, sol_coh cfg (h ++ o1 ++ [ODb DbClearWritten] ++ o2 ++ (o' ++ [OTx from (response_bytes rsp' (s_sol_buf s3))]) ++ o4) s4).
+        { intros o4 l rx Hl Hr. subst s4. psimpl_in Hl. inversion Hl; subst l. cbn [lr_response] in Hr.
+          inversion Hr; subst rx. psimpl. exists from. split; [|exact Hfrom].
+          rewrite ?in_app_iff. cbn [In]. tauto. }
+        destruct next as [n|].
+        -- inv_pair H. specialize (Hcoh4 []). rewrite app_nil_r in Hcoh4.
+           split; [split; [exact Hcoh4|split; [|split]]|split]; subst s4; psimpl.
+           ++ apply unsol_coh_vacuous. intros. psimpl. discriminate.
+           ++ intros se0 dl0 rs0 X. psimpl_in X. inversion X; subst. psimpl.
+              eexists _, rsp'. split; [reflexivity|]. split; [reflexivity|].
+              rewrite Hq, Q1, (Q2 _ eq_refl). unfold seq16_next. lia.
+           ++ apply def_ok_none. psimpl. congruence.
+           ++ congruence.
+           ++ intros X. congruence.
+        -- destruct (resume_at cfg (stage_of r) (upd_control s4 CIdle)) as [s5 o5] eqn:E. inv_pair H.
+           apply resume_pres with (h := h)
+             (pre := o1 ++ [ODb DbClearWritten] ++ o2 ++ (o' ++ [OTx from (response_bytes rsp' (s_sol_buf s3))])) in E; auto.
+           ++ rewrite <- !app_assoc in E. rewrite <- !app_assoc. exact E.
+           ++ apply stage_ok_of_none. subst s4. psimpl. congruence.
+           ++ apply def_ok_none. subst s4. psimpl. congruence.
+           ++ specialize (Hcoh4 []). rewrite app_nil_r in Hcoh4.
+              apply sol_coh_same with (s := s4); auto.
+    + destruct (resume_at cfg (stage_of r) (upd_pending (upd_control s0 CIdle) (Some (from, bc, bytes, d, fid))))
+        as [s2 o2] eqn:E. inv_pair H.
+      apply resume_pres with (h := h) (pre := o1 ++ [ODb DbReset]) in E; auto.
+      * rewrite <- !app_assoc in E. exact E.
+      * apply stage_ok_of_none. psimpl. exact Hdn.
+      * apply sol_coh_frame with (s := s0); auto.
+  - (* unsolicited confirm wait *)
+    destruct (unsol_wait_fragment cfg s0 resp from bc bytes d fid) as [[s1 res] o1] eqn:Ew.
+    pose proof (unsol_wait_fragment_def_ok _ _ _ _ _ _ _ _ _ _ _ Ew D) as Hd1.
+    apply unsol_wait_fragment_pres with (h := h) in Ew as [A1 [[Wc [Wp [Wn Wu]]] [S1 Wd]]]; auto.
+    destruct res as [r|].
+    + destruct (end_unsol cfg s1 is_null r) as [[s2 ns] o2] eqn:Ee.
+      apply end_unsol_spec in Ee as [[[Fc [Fl [Fd [Fp [Fn Fu]]]]] Fb] Se].
+      psimpl_in Fc. psimpl_in Fl. psimpl_in Fd. psimpl_in Fp. psimpl_in Fn. psimpl_in Fb.
+      destruct (resume_at cfg (St3 ns) s2) as [s3 o3] eqn:E. inv_pair H.
+      apply resume_pres with (h := h) (pre := o1 ++ o2) in E; auto.
+      * rewrite <- !app_assoc in E. exact E.
+      * cbn [stage_ok]. intros X. congruence.
+      * apply def_ok_same with (s := s1); auto.
+      * rewrite app_assoc. apply sol_coh_frame with (s := s1); auto.
+    + inv_pair H. split; [split; [exact A1|split; [|split]]|split].
+      * apply unsol_coh_frame with (s := s0); auto. apply (forallb_imp _ _ _ req_neu S1).
+      * apply wait_coh_not_wait. intros ? ? ? X. rewrite Wc, Ec in X. discriminate.
+      * exact Hd1.
+      * congruence.
+      * intros _. rewrite Wc, Ec. eauto.
+Qed.
+
+(* ---------- one step, and reachable states ------------------------------------------------------------------------------------ *)
+
+Lemma inv_app_quiet cfg h s o :
+  forallb not_enter_unsol o = true -> inv cfg h s -> inv cfg (h ++ o) s.
+Proof.
+  intros So [[A [B [C D]]] E]. split; [split; [|split; [|split]]|]; auto.
+  - apply sol_coh_frame with (s := s); auto.
+  - apply unsol_coh_frame with (s := s); auto.
+Qed.
+
+Lemma idle_loop_pres cfg h s s' o pre :
+  idle_loop 8 cfg s = (s', o) ->
+  s_control s = CIdle -> s_deferred s = None -> sol_coh cfg (h ++ pre) s ->
+  inv cfg (h ++ pre ++ o) s'.
+Proof.
+  rewrite idle_loop_8_eq. intros H Hc Hd Hcoh.
+  eapply resume_pres; eauto. apply def_ok_none; exact Hd.
+Qed.
+
+Lemma ostep_pres cfg h s ev ans s' o :
+  ostep cfg s ev ans = (s', o) -> inv cfg h s -> inv cfg (h ++ o) s'.
+Proof.
+  unfold ostep. intros H Hinv.
+  assert (Hinv0 : inv cfg h (upd_answers s ans)) by (apply inv_same with (s := s); [frame_tac | exact Hinv]).
+  set (s0 := upd_answers s ans) in *. clearbody s0. clear Hinv.
+  destruct ev as [from bc bytes d|ms| |sel op|v|].
+  - destruct (on_rx cfg s0 from bc bytes d) as [s1 o1] eqn:E1.
+    destruct (advance 64 cfg s1 (s_now s1 + settle_ms)) as [s2 o2] eqn:E2. inv_pair H.
+    apply on_rx_pres with (h := h) in E1; auto. apply advance_pres with (h := h ++ o1) in E2; auto.
+    rewrite <- app_assoc in E2. exact E2.
+  - destruct (advance 4096 cfg s0 (s_now s0 + ms)) as [s2 o2] eqn:E2. inv_pair H.
+    eapply advance_pres; eauto.
+  - destruct (s_control s0) as [|se dl r|resp is_null retries dl] eqn:Ec;
+      pose proof Hinv0 as [[A [B [C D]]] [E1 E2]].
+    + destruct (idle_loop 8 cfg s0) as [s1 o1] eqn:El.
+      destruct (advance 64 cfg s1 (s_now s1 + settle_ms)) as [s2 o2] eqn:Ea. inv_pair H.
+      assert (Hd0 : s_deferred s0 = None).
+      { apply rest_ok_deferred_none; [split; auto|]. intros ? ? ? ? X. rewrite Ec in X. discriminate. }
+      assert (Hc0 : sol_coh cfg (h ++ []) s0) by (rewrite app_nil_r; exact A).
+      apply idle_loop_pres with (h := h) (pre := []) in El; auto.
+      apply advance_pres with (h := h ++ o1) in Ea; auto. rewrite <- app_assoc in Ea. exact Ea.
+    + destruct (advance 64 cfg (upd_notify s0 true) (s_now (upd_notify s0 true) + settle_ms)) as [s2 o2] eqn:Ea.
+      inv_pair H. apply advance_pres with (h := h) in Ea; [exact Ea|].
+      apply inv_same' with (s := s0); try reflexivity; exact Hinv0.
+    + destruct (advance 64 cfg (upd_notify s0 true) (s_now (upd_notify s0 true) + settle_ms)) as [s2 o2] eqn:Ea.
+      inv_pair H. apply advance_pres with (h := h) in Ea; [exact Ea|].
+      apply inv_same' with (s := s0); try reflexivity; exact Hinv0.
+  - inv_pair H. rewrite app_nil_r. apply inv_same with (s := s0); [frame_tac | exact Hinv0].
+  - inv_pair H. rewrite app_nil_r. apply inv_same with (s := s0); [frame_tac | exact Hinv0].
+  - destruct (idle_loop 8 cfg (upd_pending (upd_control (session_reset s0) CIdle) None)) as [s2 o2] eqn:El.
+    destruct (advance 64 cfg s2 (s_now s2 + settle_ms)) as [s3 o3] eqn:Ea. inv_pair H.
+    assert (Hc0 : sol_coh cfg (h ++ [ODb DbReset; OSessionEnd]) (upd_pending (upd_control (session_reset s0) CIdle) None)).
+    { intros l r X. psimpl_in X. discriminate. }
+    apply idle_loop_pres with (h := h) (pre := [ODb DbReset; OSessionEnd]) in El; auto.
+    apply advance_pres with (h := h ++ [ODb DbReset; OSessionEnd] ++ o2) in Ea; auto.
+    rewrite <- !app_assoc in Ea. exact Ea.
+Qed.
+
+Lemma ostart_inv cfg sel op iin a s o : ostart cfg sel op iin a = (s, o) -> inv cfg o s.
+Proof.
+  unfold ostart. intros H.
+  apply idle_loop_pres with (h := []) (pre := []) in H; auto.
+  intros l r X. psimpl_in X. discriminate.
+Qed.
+
+
+(* ---------- classification of a repeated request --------------------------------------------------------------------------- *)
+
+Lemma classify_last s s1 bc bytes ctl fn obj :
+  s_last s1 = s_last s -> classify s1 bc bytes ctl fn obj = classify s bc bytes ctl fn obj.
+Proof. unfold classify. intros ->. reflexivity. Qed.
+
+Lemma bytes_eqb_eq a : forall b, bytes_eqb a b = true <-> a = b.
+Proof.
+  induction a as [|x a IH]; intros [|y b]; cbn [bytes_eqb]; split; intros H; try discriminate; auto.
+  - apply andb_true_iff in H as [H1 H2]. apply N.eqb_eq in H1. apply IH in H2. congruence.
+  - inversion H; subst. rewrite N.eqb_refl. cbn [andb]. apply IH. reflexivity.
+Qed.
+
+(* FtRepeatNonRead: the fragment is, byte for byte and with the same sequence number, the request
+   recorded last, and its function is neither CONFIRM nor READ *)
+Lemma classify_repeat_nonread_iff s bytes ctl fn obj resp :
+  classify s None bytes ctl fn obj = FtRepeatNonRead resp <->
+  fn <> fn_confirm /\ fn <> fn_read /\ (exists hdrs rh, obj = ObjOk hdrs rh) /\
+  exists l, s_last s = Some l /\ lr_seq l = ctl_seq ctl /\ lr_bytes l = bytes /\ resp = lr_response l.
+Proof.
+  unfold classify. split.
+  - destruct (fn =? fn_confirm) eqn:E0; [destruct (ctl_uns ctl); discriminate|].
+    destruct obj as [iin2|hdrs rh]; [discriminate|].
+    destruct (s_last s) as [l|]; [|destruct (fn =? fn_read); discriminate].
+    destruct ((lr_seq l =? ctl_seq ctl) && bytes_eqb (lr_bytes l) bytes) eqn:Er;
+      [|destruct (fn =? fn_read); discriminate].
+    destruct (fn =? fn_read) eqn:E1; [discriminate|]. intros H. inversion H; subst.
+    apply andb_true_iff in Er as [Er1 Er2]. apply N.eqb_eq in Er1. apply bytes_eqb_eq in Er2.
+    apply N.eqb_neq in E0. apply N.eqb_neq in E1. splits; eauto 10.
+  - intros [H0 [H1 [[hdrs [rh ->]] [l [Hl [Hs [Hb ->]]]]]]].
+    apply N.eqb_neq in H0. apply N.eqb_neq in H1. rewrite H0, H1, Hl, Hs, N.eqb_refl.
+    cbn [andb]. destruct (bytes_eqb (lr_bytes l) bytes) eqn:E; [reflexivity|].
+    exfalso. assert (X : bytes_eqb (lr_bytes l) bytes = true) by (apply bytes_eqb_eq; exact Hb). congruence.
+Qed.
+
+(* ---------- what a repeated non-READ request produces ------------------------------------------------------------------------ *)
+
+Definition echo_of (s : ostate) (from : N) (resp : option response) : list oobs :=
+  match resp with Some r => [OTx from (response_bytes r (s_sol_buf s))] | None => [] end.
+
+Lemma echo_of_buf s s1 from resp : s_sol_buf s1 = s_sol_buf s -> echo_of s1 from resp = echo_of s from resp.
+Proof. unfold echo_of. intros ->. reflexivity. Qed.
+
+Lemma handle_from_idle_repeat cfg s from bytes d fid ctl fn obj resp s1 o :
+  to_treq cfg from d = TqRequest ctl fn obj ->
+  classify s None bytes ctl fn obj = FtRepeatNonRead resp ->
+  handle_from_idle cfg s from None bytes d fid = (s1, o) ->
+  s_pending s1 = s_pending s /\
+  exists tail, o = [OInfo (IIdleRequest fn (ctl_seq ctl))] ++ echo_of s from resp ++ tail /\ forallb bg tail = true.
+Proof.
+  intros Et Ecl. rewrite handle_from_idle_unfold, Et. cbv zeta. rewrite Ecl.
+  pose proof (touch_select_frame s fid) as [[Fc [Fl [Fd [Fp [Fn Fu]]]]] Fb].
+  unfold finish_fn. destruct resp as [r|].
+  - unfold repeat_solicited. rewrite Fb. cbv zeta.
+    destruct (confirm_series None r) as [x|]; intros H; inv_pair H; psimpl; (split; [exact Fp|]).
+    + exists [OInfo (IEnterSolWait (se_ecsn x))]. split; reflexivity.
+    + exists []. split; reflexivity.
+  - intros H; inv_pair H; psimpl. split; [exact Fp|]. exists []. split; reflexivity.
+Qed.
+
+Lemma idle_run_S f cfg st s :
+  idle_run (S f) cfg st s =
+  match st with
+  | St1 =>
+      let '(s1, o1) := match s_pending s with
+                       | Some (from, bc, bytes, d, fid) => handle_from_idle cfg (upd_pending s None) from bc bytes d fid
+                       | None => (s, [])
+                       end in
+      match s_control s1 with
+      | CIdle => let '(s2, o2) := idle_run f cfg St2 s1 in (s2, o1 ++ o2)
+      | _ => (s1, o1)
+      end
+  | St2 =>
+      let '(s2, _, o2) := check_unsolicited cfg s in
+      match s_control s2 with
+      | CIdle => let '(s3, o3) := idle_run f cfg (St3 false) s2 in (s3, o2 ++ o3)
+      | CUnsolWait resp is_null _ _ =>
+          match s_pending s2 with
+          | None => (s2, o2)
+          | Some (from, bc, bytes, d, fid) =>
+              let '(s3, res, o3) := unsol_wait_fragment cfg (upd_pending s2 None) resp from bc bytes d fid in
+              match res with
+              | None => (s3, o2 ++ o3)
+              | Some r =>
+                  let '(s4, ns, o4) := end_unsol cfg s3 is_null r in
+                  let '(s5, o5) := idle_run f cfg (St3 ns) s4 in
+                  (s5, o2 ++ o3 ++ o4 ++ o5)
+              end
+          end
+      | _ => (s2, o2)
+      end
+  | St3 ns =>
+      let '(s3, o3) := handle_deferred cfg s ns in
+      match s_control s3 with
+      | CIdle => let '(s4, o4) := idle_run f cfg (St4 ns) s3 in (s4, o3 ++ o4)
+      | _ => (s3, o3)
+      end
+  | St4 ns =>
+      match s_pending s with
+      | Some _ => idle_run f cfg St1 s
+      | None =>
+          if ns then idle_run f cfg St1 s
+          else if s_notify s then idle_run f cfg St1 (upd_notify s false)
+          else (s, [])
+      end
+  end.
+Proof. reflexivity. Qed.
+
+(* the loop at stage 1 with a repeated request in the reader *)
+Lemma idle_run_repeat_St1 cfg f s from bytes d fid ctl fn obj resp s' o :
+  s_pending s = Some (from, None, bytes, d, fid) ->
+  to_treq cfg from d = TqRequest ctl fn obj ->
+  classify s None bytes ctl fn obj = FtRepeatNonRead resp ->
+  idle_run (S f) cfg St1 s = (s', o) ->
+  s_pending s' = None /\
+  exists post, o = [OInfo (IIdleRequest fn (ctl_seq ctl))] ++ echo_of s from resp ++ post /\ forallb bg post = true.
+Proof.
+  intros Hp Et Ecl. rewrite idle_run_S, Hp.
+  destruct (handle_from_idle cfg (upd_pending s None) from None bytes d fid) as [s1 o1] eqn:Eh.
+  apply handle_from_idle_repeat with (ctl := ctl) (fn := fn) (obj := obj) (resp := resp) in Eh
+    as [Hp1 [tail [-> St]]]; auto.
+  psimpl_in Hp1. rewrite (echo_of_buf s (upd_pending s None)) by reflexivity.
+  destruct (s_control s1).
+  - destruct (idle_run f cfg St2 s1) as [s2 o2] eqn:E2. intros H; inv_pair H.
+    apply idle_run_bg in E2 as [A B]; auto. split; [exact A|].
+    exists (tail ++ o2). split; [rewrite <- !app_assoc; reflexivity | fb].
+  - intros H; inv_pair H. split; [exact Hp1|]. exists tail. auto.
+  - intros H; inv_pair H. split; [exact Hp1|]. exists tail. auto.
+Qed.
+
+Lemma unsol_wait_fragment_repeat cfg s resp0 from bytes d fid ctl fn obj resp :
+  to_treq cfg from d = TqRequest ctl fn obj ->
+  classify s None bytes ctl fn obj = FtRepeatNonRead resp ->
+  unsol_wait_fragment cfg s resp0 from None bytes d fid = (upd_deferred s None, None, echo_of s from resp).
+Proof.
+  intros Et Ecl. unfold unsol_wait_fragment. rewrite Et, Ecl. reflexivity.
+Qed.
+
+(* the loop resumed after an aborted solicited series, the repeated request held by the reader *)
+Lemma idle_run_repeat cfg f st s from bytes d fid ctl fn obj resp s' o :
+  (st = St2 \/ exists ns, st = St4 ns) ->
+  s_pending s = Some (from, None, bytes, d, fid) ->
+  s_control s = CIdle -> s_deferred s = None ->
+  to_treq cfg from d = TqRequest ctl fn obj ->
+  classify s None bytes ctl fn obj = FtRepeatNonRead resp ->
+  idle_run (S (S (S (S (S f))))) cfg st s = (s', o) ->
+  s_pending s' = None /\
+  exists u i post, o = u ++ i ++ echo_of s from resp ++ post /\
+    forallb ustart u = true /\ (i = [] \/ i = [OInfo (IIdleRequest fn (ctl_seq ctl))]) /\
+    forallb bg post = true.
+Proof.
+  intros Hst Hp Hc Hd Et Ecl H.
+  destruct Hst as [->|[ns ->]].
+  2:{ rewrite idle_run_S, Hp in H.
+      eapply idle_run_repeat_St1 in H as [A [post [Eo B]]]; eauto. subst o.
+      split; [exact A|]. exists [], [OInfo (IIdleRequest fn (ctl_seq ctl))], post. auto. }
+  rewrite idle_run_S in H.
+  destruct (check_unsolicited cfg s) as [[s2 ns2] o2] eqn:Eu.
+  apply check_unsolicited_spec with (h := []) in Eu as [Ul [Ub [Ud [Up [Un [Us [_ Uk]]]]]]]; auto.
+  assert (Ecl2 : forall sx, s_last sx = s_last s2 -> classify sx None bytes ctl fn obj = FtRepeatNonRead resp).
+  { intros sx X. rewrite (classify_last s sx); [exact Ecl | congruence]. }
+  destruct Uk as [Uk|[r1 [n [rt [dl Uk]]]]]; rewrite Uk in H.
+  - rewrite idle_run_S in H. rewrite handle_deferred_none in H by congruence. rewrite Uk in H.
+    rewrite idle_run_S in H. rewrite Up, Hp in H.
+    destruct (idle_run (S (S f)) cfg St1 s2) as [s4 o4] eqn:E4.
+    apply (idle_run_repeat_St1 cfg (S f) s2 from bytes d fid ctl fn obj resp) in E4 as [A [post [Eo B]]];
+      [ | congruence | exact Et | apply Ecl2; reflexivity ].
+    inv_pair H. split; [exact A|].
+    exists o2, [OInfo (IIdleRequest fn (ctl_seq ctl))], post.
+    rewrite (echo_of_buf s s2) by exact Ub. auto.
+  - rewrite Up, Hp in H.
+    rewrite (unsol_wait_fragment_repeat cfg (upd_pending s2 None) r1 from bytes d fid ctl fn obj resp) in H; auto.
+    inv_pair H. psimpl. split; [reflexivity|].
+    exists o2, [], []. rewrite (echo_of_buf s (upd_pending s2 None)) by exact Ub.
+    rewrite app_nil_r. auto.
+Qed.
